@@ -70,11 +70,55 @@ impl Sc {
 
 pub struct C07;
 
+/// A chain of fifteen directories with 255-byte names and, at its end, files whose paths (as
+/// find prints them) are 4093, 4094 and 4095 bytes long: the longest a single system call
+/// takes. Built and walked with relative names from inside the tree's parent.
+fn gen_path_max(rng: &mut Rng) -> Sc {
+    use crate::tree::Node;
+    let mut spec = crate::tree::TreeSpec::default();
+    let mut p = String::from("t");
+    spec.nodes.push(Node::Dir { path: p.clone() });
+    for k in 0..15 {
+        p = format!("{p}/{}{}", (b'a' + k as u8) as char, "d".repeat(254));
+        spec.nodes.push(Node::Dir { path: p.clone() });
+        if rng.chance(1, 4) {
+            spec.nodes.push(Node::File { path: format!("{p}/s{k}"), size: 0, token: 0, atime_ns: None, mtime_ns: None });
+        }
+    }
+    // p is 1 + 15 * 256 = 3841 bytes long
+    for (i, total) in [4093usize, 4094, 4095].iter().enumerate() {
+        let name_len = total - p.len() - 1;
+        spec.nodes.push(Node::File { path: format!("{p}/{}{}", i, "f".repeat(name_len - 1)), size: 0, token: 0, atime_ns: None, mtime_ns: None });
+    }
+    let mut find = FindScenario::new(spec, vec![]);
+    if rng.chance(1, 2) {
+        find.sink_plan = (0..rng.urange(5, 60)).map(|_| if rng.chance(1, 5) { WriteOp::Intr } else { WriteOp::Accept(*rng.pick(&[1usize, 7, 100, 4095, 4096])) }).collect();
+    }
+    let mut sc = Sc {
+        find,
+        start: "t".into(),
+        sorted: rng.chance(1, 2),
+        nul: rng.chance(5, 6),
+        read_sizes: vec![*rng.pick(&[0usize, 1, 4096, 4095])],
+        read_intr_every: 0,
+        outcomes: vec![],
+        xargs_n: if rng.chance(1, 2) { Some(1) } else { None },
+        follow: None,
+        files0: false,
+        xargs_replace: false,
+    };
+    sc.render();
+    sc
+}
+
 impl Property for C07 {
     const ID: &'static str = "C07";
     type Sc = Sc;
 
     fn generate(rng: &mut Rng, _tier: Tier) -> Sc {
+        if rng.chance(1, 80) {
+            return gen_path_max(rng);
+        }
         // the starting point itself may be any name: only blanks, a newline in it, multi-byte
         let root = rng.pick(&["t", "t", "t", "t", "t", "t", " ", "  ", "a b", "\t", "\u{e9}", "t\n", "'", "{}", "\u{feff}inbox", "\u{feff}", "#!x"]).to_string();
         let cfg = TreeCfg {
@@ -148,10 +192,17 @@ impl Property for C07 {
     }
 
     fn check(sc: &Sc, ctx: &mut Ctx, rep: &mut Report) {
-        let root = ctx.scratch.join("A");
+        let mut root = ctx.scratch.join("A");
         let _ = std::env::set_current_dir(&ctx.scratch);
         crate::sys::wipe(&root);
         std::fs::create_dir_all(&root).expect("scratch root");
+        if sc.find.tree.nodes.iter().any(|n| n.path().len() > 4000) {
+            // paths at PATH_MAX - 1: everything happens with relative names from here
+            let _ = std::env::set_current_dir(&root);
+            root = std::path::PathBuf::new();
+            rep.probe("paths_of_4093_to_4095_bytes");
+            rep.want_sample = false;
+        }
         if let Err(e) = tree::build(&root, &sc.find.tree) {
             rep.fail("C07.HARNESS-tree-build", format!("cannot build tree: {e}"));
             return;
@@ -453,7 +504,7 @@ impl Property for C07 {
 
     fn crosscheck(sc: &Sc, ctx: &mut Ctx, bins: &std::path::Path) -> crate::crosscheck::Xc {
         use crate::crosscheck::Xc;
-        if !sc.nul || sc.files0 || sc.xargs_replace {
+        if !sc.nul || sc.files0 || sc.xargs_replace || sc.find.tree.nodes.iter().any(|n| n.path().len() > 4000) {
             return Xc::NotComparable;
         }
         // in-process find gives the stream; the real pipeline must deliver exactly its records
